@@ -23,8 +23,9 @@ def main():
         x = os.path.basename(sd)
         out = f"{ROOT}/seeded/{pid}-{x}"
         os.makedirs(out, exist_ok=True)
-        for f in ("patch.diff", "meta.json"):
-            shutil.copy(f"{sd}/{f}", f"{out}/{f}")
+        shutil.copy(f"{sd}/patch.diff", f"{out}/patch.diff")
+        if not os.path.exists(f"{out}/meta.json"):          # keep what an earlier run recorded (confirmation, results)
+            shutil.copy(f"{sd}/meta.json", f"{out}/meta.json")
         if os.path.exists(f"{out}/demo"):
             shutil.rmtree(f"{out}/demo")
         shutil.copytree(f"{sd}/demo", f"{out}/demo")
